@@ -2836,6 +2836,12 @@ func (db *DB) importToLTX(ctx context.Context, r io.Reader) (ltx.Pos, error) {
 		return ltx.Pos{}, fmt.Errorf("read database header: %w", err)
 	}
 
+	// The pages of an existing database can only be replaced by pages of the
+	// same size; refuse early instead of failing in the middle of the apply.
+	if db.pageSize != 0 && hdr.PageSize != db.pageSize {
+		return ltx.Pos{}, fmt.Errorf("import page size (%d) does not match database page size (%d)", hdr.PageSize, db.pageSize)
+	}
+
 	// Prepend header back onto original reader.
 	r = io.MultiReader(bytes.NewReader(data), r)
 
